@@ -10,7 +10,7 @@ CHECK = {'title': "Every PWM value written while regulating stays inside the fan
               'depth-bounded for PID',
  'rule': 'per configuration (fan kind x neverStop x limits x PWM map x algorithm) breadth-first search over (controller state, symbol) where a '
          'symbol is (curve value in/outside 0..255, RPM reading, elapsed virtual time) and one transition runs the real measureRpm+UpdateFanSpeed; '
-         'states are canonical keys of the real objects; distinct_nontrivial = distinct reachable states summed over configurations Further runs: the PWM-map learning sweep with a failing read-back (C01sweep), and two real controllers with different maps/limits in one process with interleaved cycles in three orders (C01pair). The cycle alphabet includes a failing curve evaluation, pwm_enable refused / stuck, and a refused first PWM write; configured limits are taken from the configuration, not from the fan object.',
+         'states are canonical keys of the real objects; distinct_nontrivial = distinct reachable states summed over configurations Further runs: the PWM-map learning sweep with a failing read-back (C01sweep), and two real controllers with different maps/limits in one process with interleaved cycles in three orders (C01pair). The cycle alphabet includes a failing curve evaluation, pwm_enable refused / stuck, and a refused first PWM write; configured limits are taken from the configuration, not from the fan object. Cycle alphabet additionally has cycles in which the PWM file cannot be read back (the fan then has no PWM sensor feature; writes work): the written value must still be the map output of the request.',
  'assumptions': ['Go 1.26 toolchain (testing/synctest virtual clock) is faithful to real timer semantics',
                  'harness environment model (in-memory integer files behind the util.VerifFileOp seam, fan device model) is faithful to sysfs',
                  'rpmRollingWindowSize=1 so the RPM average equals the injected reading'],
